@@ -48,7 +48,7 @@ def _len_facts(path, x_txt):
     return facts
 
 
-def rule_flow(ctx: Ctx):
+def rule_flow(ctx: Ctx, flow: str = "C14.flow", unwrap: str = "C14.unwrap"):
     rep, k = ctx.rep, ctx.k
     for eng in k.engines:
         fn, tp, aps = activate_paths(ctx, eng)
@@ -57,7 +57,7 @@ def rule_flow(ctx: Ctx):
             if not ap.executing:
                 if ap.executing is False:
                     r = ap.ret.elts[1] if isinstance(ap.ret, ast.Tuple) and len(ap.ret.elts) == 2 else None
-                    rep.check(isinstance(r, ast.Constant) and r.value is None, "C14.flow", fn.loc(),
+                    rep.check(isinstance(r, ast.Constant) and r.value is None, flow, fn.loc(),
                               f"{eng.name}: a rejected candidate contributes no result", fn.key, f"return {show(ap.ret)}")
                 continue
             n += 1
@@ -65,7 +65,7 @@ def rule_flow(ctx: Ctx):
             groups = {f"$c{s.ev.idx}": s.gc.group for s in ap.syms if s.kind == "G"}
             # inlined helpers: group results may be returned through `leave` terms, closure handles it
             if not (isinstance(ap.ret, ast.Tuple) and len(ap.ret.elts) == 2):
-                rep.unrecognised("C14.flow", fn.loc(), f"return value {show(ap.ret)}")
+                rep.unrecognised(flow, fn.loc(), f"return value {show(ap.ret)}")
             R = ap.ret.elts[1]
             deps = {groups[p] for p in placeholder_closure(R, evs) if p in groups}
             before = [p for p, g in groups.items() if g == "BEFORE"]
@@ -75,7 +75,7 @@ def rule_flow(ctx: Ctx):
             lengths = [L for L in (0, 1, 2, 3) if all(op(L, c) == pol for op, c, pol, _ in facts)]
             bad_groups = deps - {"BEFORE", "ON"}
             if bad_groups:
-                rep.violation("C14.flow", fn.loc(), f"{eng.name}: the event result also contains the results of {sorted(bad_groups)} callbacks",
+                rep.violation(flow, fn.loc(), f"{eng.name}: the event result also contains the results of {sorted(bad_groups)} callbacks",
                               fn.key, f"return {show(ap.ret)}", derives_from=sorted(deps))
                 continue
             rtxt = show(R)
@@ -88,27 +88,27 @@ def rule_flow(ctx: Ctx):
             else:
                 # same operands in another arrangement?
                 if deps and set(n_.id for n_ in ast.walk(R) if isinstance(n_, ast.Name)) & set(before + on):
-                    rep.violation("C14.flow", fn.loc(),
+                    rep.violation(flow, fn.loc(),
                                   f"{eng.name}: the result is `{xshow(R, evs)}`, not the before results followed by the on results",
                                   fn.key, f"return {rtxt}", expected=x_txt)
                     continue
-                rep.unrecognised("C14.flow", fn.loc(), f"result expression `{rtxt}`")
-            rep.ok("C14.flow", fn.loc(), f"{eng.name}: the result is built from the before results followed by the on results only",
+                rep.unrecognised(flow, fn.loc(), f"result expression `{rtxt}`")
+            rep.ok(flow, fn.loc(), f"{eng.name}: the result is built from the before results followed by the on results only",
                    result=rtxt, derives_from=sorted(deps))
             want = {"none": [0], "single": [1], "list": [2, 3]}[shape]
             ok = bool(lengths) and set(lengths) <= set(want) and (shape != "list" or lengths == [2, 3])
-            rep.check(ok, "C14.unwrap", fn.loc(),
+            rep.check(ok, unwrap, fn.loc(),
                       f"{eng.name}: `{ {'none': 'None', 'single': 'the single value', 'list': 'the list'}[shape] }` is returned exactly for "
                       f"{ {'none': 'zero', 'single': 'one', 'list': 'two or more'}[shape] } before/on results",
                       fn.key, f"returns {shape} when the number of results may be {lengths} (tests: {[f[3] + '==' + str(f[2]) for f in facts]})",
                       lengths=lengths, shape=shape)
-        rep.floor("C14.flow", f"executing paths of {eng.name}._activate", n, 3)
+        rep.floor(flow, f"executing paths of {eng.name}._activate", n, 3)
         shapes = set()
         for ap in aps:
             if ap.executing and isinstance(ap.ret, ast.Tuple):
                 R = ap.ret.elts[1]
                 shapes.add("none" if isinstance(R, ast.Constant) else ("single" if isinstance(R, ast.Subscript) else "list"))
-        rep.check(shapes == {"none", "single", "list"}, "C14.unwrap", fn.loc(), f"{eng.name}: all three unwrap cases (0, 1, many) exist",
+        rep.check(shapes == {"none", "single", "list"}, unwrap, fn.loc(), f"{eng.name}: all three unwrap cases (0, 1, many) exist",
                   fn.key, f"unwrap cases present: {sorted(shapes)}")
 
 
